@@ -1088,6 +1088,33 @@ async fn exec_op(c: usize, op: Op) {
                 Some(b) => format!("running {}", u8::from(b)),
             });
         }
+        Op::Publish { j, m, via: 3 } => {
+            // `Broker::try_publish`: publishes iff an instance is registered and running right now.  Whether it is is
+            // asked through the same synchronous registry query first (nothing runs in between); `None` then means
+            // that nothing was submitted, and the operation does not exist for the model.  A verdict that differs
+            // from the query's is logged as a line the model cannot accept.
+            let there = if j == 0 {
+                Broker::<Topic<0>>::try_from_registry().is_some()
+            } else {
+                Broker::<Topic<1>>::try_from_registry().is_some()
+            };
+            let o = fresh_op();
+            if there {
+                emit(format!("bbegin {} pub {} {}", o, j, m));
+                PENDING.with(|p| p.borrow_mut().push(o));
+            }
+            let r = if j == 0 {
+                Broker::try_publish(Topic::<0> { m }).await
+            } else {
+                Broker::try_publish(Topic::<1> { m }).await
+            };
+            PENDING.with(|p| p.borrow_mut().retain(|x| *x != o));
+            match (there, r) {
+                (true, Some(r)) => emit(format!("bret {} {}", o, res_str(&r))),
+                (false, None) => emit(format!("note try_publish {} {} none", j, m)),
+                (t, r) => emit(format!("try_publish_mismatch {} {} query={} result={}", j, m, t, r.is_some())),
+            }
+        }
         Op::Publish { j, m, via } => {
             let o = fresh_op();
             emit(format!("bbegin {} pub {} {}", o, j, m));
